@@ -236,7 +236,7 @@ def main():
         })
     m = {
         'version': 1,
-        'setup_cmd': 'cd lean && lake build',
+        'setup_cmd': 'python3 tools/gen_source_lean.py && cd lean && lake build',
         'hooks': {
             'guard': 'OPTIBUS_PLAYBACK_VERIF',
             'enable': 'none needed: no hook was added to /repo; the harness controls boto3, clocks, locks and the PRNG from outside',
